@@ -168,6 +168,50 @@ def run_byte_shard(sh, res):
     res.sample({'bytes': data.hex(), 'text': sample, 'compositions': 1 << (len(data) - 1)})
 
 
+def run_bom_shard(sh, res):
+    """every text up to the bound over {BOM, o, quote, comma, LF, #} as UTF-8 bytes: only a BOM that starts the input is a BOM (dropped with a warning); one after a
+    comment line, inside the first record's continuation lines or anywhere else is data. Whole read against the reference, every chunk size, every 2-piece byte delivery."""
+    rc, eng = tree.csvmod(), tree.engine()
+    syms = sh['syms']
+    policy, dlm = sh['policy'], sh['dlm']
+    for n in range(1, sh['maxlen'] + 1):
+        for tup in itertools.product(syms, repeat=n):
+            text = ''.join(tup)
+            if '\ufeff' not in text:
+                continue
+            data = text.encode('utf-8')
+            for has_header in (False, True):
+                for comment in (None, '#'):
+                    base = read_all(rc, eng, io.BytesIO(data), 'utf-8', dlm, policy, has_header, comment, 1024)
+                    r = ref_expect(text, dlm, policy, has_header, comment, '\ufeff')
+                    why = compare_with_ref(base, r, has_header)
+                    res.evaluations += 1
+                    res.traces += 1
+                    res.states += 1
+                    case = {'kind': 'bytes', 'hex': data.hex(), 'encoding': 'utf-8', 'policy': policy, 'dlm': dlm, 'has_header': has_header, 'comment': comment}
+                    if why:
+                        res.violation('reader-vs-reference', case, r.key(), base, why)
+                    res.feat('bom_texts_leading' if text.startswith('\ufeff') else 'bom_texts_not_leading')
+                    if not text.startswith('\ufeff'):
+                        res.nontrivial += 1
+                    for cs in range(1, n + 2):
+                        got = read_all(rc, eng, io.BytesIO(data), 'utf-8', dlm, policy, has_header, comment, cs)
+                        res.evaluations += 1
+                        res.transitions += 1
+                        if got != base:
+                            c = dict(case); c['chunk_size'] = cs
+                            res.violation('chunk-size-dependence', c, base, got)
+                    for cut in range(1, len(data)):
+                        st = PieceBytes([data[:cut], data[cut:]])
+                        got = read_all(rc, eng, st, 'utf-8', dlm, policy, has_header, comment, 1024)
+                        res.evaluations += 1
+                        res.transitions += st.calls
+                        if got != base:
+                            c = dict(case); c['pieces'] = [data[:cut].hex(), data[cut:].hex()]
+                            res.violation('chunk-dependence-bytes', c, base, got)
+    res.sample({'bom_alphabet': [repr(x) for x in syms], 'policy': policy})
+
+
 MEDIUM_TEXTS = [
     'id,name\r\n1,"Doe, John"\r\n2,"multi\r\nline",x\r\n#c\r\n3,end',
     '"a""b",c\n\n#x\r"q\n\nr",z\r\rlast"',
@@ -264,6 +308,8 @@ def run_shard(sh):
         run_long_shard(sh, res)
     elif sh['kind'] == 'text':
         run_text_shard(sh, res)
+    elif sh['kind'] == 'bom':
+        run_bom_shard(sh, res)
     else:
         run_byte_shard(sh, res)
     return res
@@ -286,6 +332,8 @@ def build(tier, seed):
             for first in s7:
                 for second in s7:
                     shards.append({'kind': 'text', 'policy': policy, 'dlm': dlm, 'syms': s7, 'first': first + second, 'minlen': 7, 'maxlen': 7})
+    for policy, dlm in POLICIES:
+        shards.append({'kind': 'bom', 'policy': policy, 'dlm': dlm, 'syms': ['\ufeff', o, '"', ',' if policy != 'whitespace' else ' ', '\n', '#'], 'maxlen': 5 if tier == 'thorough' else 4})
     for s in BYTE_SAMPLES:
         shards.append({'kind': 'bytes', 'sample': s, 'chunk_sizes': [1, 2, 1024] if tier == 'thorough' else [1, 1024]})
     for t in MEDIUM_TEXTS:
@@ -303,13 +351,13 @@ def main(tier, seed):
     res = core.run_shards('vf.checks.c12', shards)
     return core.finish(PID, tier, seed, res, t0,
         rule='all texts up to the bound over {o, quote, comma, LF, CR, #, space} x all 2^(n-1) compositions of the delivery x chunk sizes 1..n+1 x 5 policies x comment '
-             'prefix x header; byte level: all compositions of the UTF-8 samples x {utf-8, latin-1}; states = delivery-tree nodes (2^n per text and configuration), '
+             'prefix x header; byte level: all compositions of the UTF-8 samples x {utf-8, latin-1}; every text up to 4-5 characters over {BOM, o, quote, delimiter, LF, #} containing a BOM at any position (whole read, chunk sizes, 2-piece byte deliveries); states = delivery-tree nodes (2^n per text and configuration), '
              'transitions = read() calls answered; non-trivial = multi-piece delivery of a text containing CR or a quote',
         assumptions=['the reader only talks to its stream through read(k): every answer sequence a stream can give is a composition of the content (requests smaller than a piece split it)',
                      'under an encoding the reader wraps the raw stream in its own TextIOWrapper (universal newlines), so compositions exercise the incremental decoder and newline translation',
                      'field-count warning numbers are compared for header-less input only'],
         extra={'bounds': {'text_maxlen': 6 if tier == 'thorough' else 5, 'len7_slice': tier == 'thorough', 'byte_samples': BYTE_SAMPLES}},
-        min_features={'texts_with_crlf': 100, 'texts_ending_cr': 100, 'rfc_multiline_records': 50, 'bom_cases': 4, 'byte_level_executions': 1000, 'long_line_executions': 50})
+        min_features={'texts_with_crlf': 100, 'texts_ending_cr': 100, 'rfc_multiline_records': 50, 'bom_cases': 4, 'bom_texts_not_leading': 2000, 'bom_texts_leading': 500, 'byte_level_executions': 1000, 'long_line_executions': 50})
 
 
 def replay(rep):
